@@ -14,18 +14,13 @@ from hqv import VERIF, REPO, UnitError
 
 
 def relevant(prop, failure, unit_props):
-    """does this failing obligation speak about property `prop`? (clause tag > fn props > unit props)"""
-    tags = hqv.tags_of(failure.get("clause") or "") or hqv.tags_of(failure.get("failed_requires") or "")
-    if tags:
-        return prop in tags
-    fn_props = (failure.get("fn_info") or {}).get("props") or unit_props
-    if failure.get("vstd_clause") or (failure.get("failed_requires") or "").startswith("<"):
-        # untagged panic site (unwrap / index / assert / overflow): a C09 obligation when the fn serves C09
-        if "C09" in fn_props:
-            return prop == "C09"
-    if failure.get("msg", "").startswith("possible arithmetic") and "C09" in fn_props:
-        return prop == "C09"
-    return prop in fn_props
+    """does this failing obligation speak about property `prop`?  A clause tag names the properties a clause was written for; the
+    function's (else the unit's) property list names the properties the function serves. A failing obligation is reported for the
+    union: a change that breaks a contracted function is a violation of every property that function is evidence for (a tag that is
+    too narrow must not hide it - found with seed C13-2)."""
+    tags = set(hqv.tags_of(failure.get("clause") or "") or []) | set(hqv.tags_of(failure.get("failed_requires") or "") or [])
+    fn_props = set((failure.get("fn_info") or {}).get("props") or unit_props)
+    return prop in (tags | fn_props)
 
 
 def obligation_id(unit, f):
